@@ -67,14 +67,15 @@ def _design_level(ctx):
                 if tag in ("CEX", "EDGE", "SWEEP"):
                     ctx.inconclusive.append("dkgcontrol: unparsable %s line printed by TLC (%s)" % (tag, cfg))
                 continue
+            # one TLC worker = one copy of the registers: keep a shortest (then smallest) history per class
+            rank = lambda o: (len(o["steps"]), json.dumps(o["steps"], sort_keys=True))
             if tag == "CEX":
                 k = (obj["mon"], obj["detail"], obj["me"])
-                if k not in best or len(obj["steps"]) < len(best[k]["steps"]):
+                if k not in best or rank(obj) < rank(best[k]):
                     best[k] = obj
             elif tag in ("EDGE", "SWEEP"):
-                # one TLC worker = one copy of the registers: keep a shortest history per class
                 k = (tag, obj["me"], obj["cls"])
-                if k not in tour or len(obj["steps"]) < len(tour[k]["steps"]):
+                if k not in tour or rank(obj) < rank(tour[k]):
                     tour[k] = obj
     return best, tour
 
@@ -237,6 +238,16 @@ def run(ctx, monitors):
     if summary and summary.get("scenarios", 0) and summary.get("dropped_late", 0) * 4 > summary["scenarios"]:
         ctx.inconclusive.append("dkgcontrol: %d of %d scenarios dropped because the machine was too slow for the scripted timeouts"
                                 % (summary["dropped_late"], summary["scenarios"]))
+    npanic = {}
+    with open(trace) as fh:
+        for line in fh:
+            if '"res":"panic"' in line:
+                e = json.loads(line)
+                k = "%s in %s" % ((e["x"].get("typ") or e["x"].get("cmd") or e["x"]["k"]), e["cur"]["st"])
+                npanic[k] = npanic.get(k, 0) + 1
+    if npanic:
+        ctx.notes.append("calls into dkg.Process that panicked (nil dereference, recovered by the harness; modelled as result 'panic', left to C14): %s"
+                         % json.dumps(npanic, sort_keys=True))
     if summary.get("wedged"):
         ctx.inconclusive.append("dkgcontrol: %d scenario(s) abandoned because a call into dkg.Process did not return" % summary["wedged"])
     drift = [a for a in alarms if a["mon"] in DRIFT]
